@@ -26,4 +26,7 @@ def replay(which):
             bad.append('subscriber %s does not keep receiving in order after lagging: %s' % (w, got[w][-4:]))
     if 'subs_after_resubscribe:2' not in log:
         bad.append('finished subscriptions are not pruned on subscribe: %s' % [x for x in log if x.startswith('subs_')])
-    return {'replayed': bool(bad), 'detail': 'native output-port script: %s ; deliveries %s ; %s' % (bad, got, [x for x in log if x.startswith('subs_')]), 'replay': {'which': which}}
+    late = [int(x.split(':')[1]) for x in out.get('starting', '').split(',') if x.startswith('s:')]
+    if late != [2, 4, 6, 8]:
+        bad.append('a subscriber that was still starting when 2 and 4 were published must receive 2, 4, 6, 8: %s' % late)
+    return {'replayed': bool(bad), 'detail': 'native output-port script: %s ; deliveries %s ; late starter %s ; %s' % (bad, got, late, [x for x in log if x.startswith('subs_')]), 'replay': {'which': which}}
